@@ -1478,9 +1478,11 @@ chkpnt1(uid_t u)
 	if (UNLIKELY(!inittedp)) {
 		echs_icalify_init(fd, (echs_instruc_t){INSVERB_UNK});
 	}
-	echs_icalify_fini(fd);
-	if (close(fd) < 0 || renameat(qdirfd, fn, qdirfd, fn + 1) < 0) {
+	if (echs_icalify_fini(fd) < 0 ||
+	    close(fd) < 0 || renameat(qdirfd, fn, qdirfd, fn + 1) < 0) {
 		int x = errno;
+		/* in case we didn't even get to close() */
+		(void)close(fd);
 		(void)unlinkat(qdirfd, fn, 0);
 		errno = x;
 		goto err;
@@ -1503,6 +1505,7 @@ chkpnta(void)
 	ndnd_t *snds;
 	size_t nsnds = 0UL;
 	size_t zsnds = countof(chkpnts);
+	bool lost = false;
 	int rc = 0;
 
 	if (UNLIKELY((snds = malloc(zsnds * sizeof(*snds))) == NULL)) {
@@ -1564,6 +1567,13 @@ chkpnta(void)
 		/* let evical module handle the printing */
 		echs_task_icalify(fd, task_ht[i].t->t);
 	}
+	/* the print buffer is shared between all those files, so finish
+	 * them all before trusting any of them */
+	for (size_t i = 0U; i < nsnds; i++) {
+		if (LIKELY(snds[i].fd >= 0)) {
+			lost |= echs_icalify_fini(snds[i].fd) < 0;
+		}
+	}
 	for (size_t i = 0U; i < nsnds; i++) {
 		const int fd = snds[i].fd;
 		const uid_t u = snds[i].key;
@@ -1577,13 +1587,16 @@ chkpnta(void)
 			}
 			break;
 		}
-		echs_icalify_fini(fd);
 		if (snprintf(fn, sizeof(fn), ".echsq_%u.ics", u) < 0) {
 			/* oh fuck, there's really nothing we can do */
 			rc = -1;
 			continue;
 		}
-		if (close(fd) < 0 || renameat(qdirfd, fn, qdirfd, fn + 1) < 0) {
+		if (lost ||
+		    close(fd) < 0 || renameat(qdirfd, fn, qdirfd, fn + 1) < 0) {
+			if (lost) {
+				(void)close(fd);
+			}
 			ECHS_ERR_LOG("\
 cannot checkpoint user %u's queue", u);
 			(void)unlinkat(qdirfd, fn, 0);
